@@ -752,7 +752,7 @@ func (w *c18World) stringEncoder(name string) (*c18Producer, string) {
 		// split the event list at the grapheme writes
 		e.segments = make([][]c18Event, len(cells))
 		j := 0
-		for _, ev := range w.m.events {
+		for _, ev := range c18Coalesce(w.m.events) {
 			if j < len(cells) && ev.text == c18Grapheme(j) {
 				j++
 				continue
@@ -1342,7 +1342,7 @@ func (w *c18World) renderProducer(name string, rgb, su, legacy bool) (*c18Produc
 						w.m.abort("control leaves the SGR region of %s", name)
 					}
 				}
-				e.segments[j] = append([]c18Event(nil), w.m.events...)
+				e.segments[j] = append([]c18Event(nil), c18Coalesce(w.m.events)...)
 				sb.WriteString(w.m.out.String())
 				sb.WriteString(c18Grapheme(j))
 			}
